@@ -50,6 +50,9 @@ pub enum CbName {
 	Prev,
 	/// name the key of an existing record that is NOT an unconfirmed coinbase candidate (index into those records)
 	NonCandidate(u16),
+	/// name a key the wallet holds no record for: an earlier unmined candidate whose record is gone (other directory of
+	/// the same seed, cleaned up), or else the path 0..2 places ahead of the account's highest recorded index
+	NoRecord(u16),
 }
 
 /// One output-creating API call on wallet `w` (with what has to happen before it on the live world).
@@ -124,7 +127,7 @@ fn target_strategy() -> BoxedStrategy<Target> {
 		2 => a().prop_map(|args| Target::FinalizeLate { args }),
 		2 => any::<u16>().prop_map(|amount| Target::IssueInvoice { amount }),
 		1 => (any::<u16>(), a()).prop_map(|(amount, args)| Target::PayInvoice { amount, args }),
-		5 => (prop_oneof![3 => Just(CbName::Fresh), 4 => Just(CbName::Prev), 1 => any::<u16>().prop_map(CbName::NonCandidate)], 0u8..4)
+		5 => (prop_oneof![3 => Just(CbName::Fresh), 4 => Just(CbName::Prev), 1 => any::<u16>().prop_map(CbName::NonCandidate), 2 => any::<u16>().prop_map(CbName::NoRecord)], 0u8..4)
 			.prop_map(|(name, fees)| Target::Coinbase { name, fees }),
 		3 => any::<u16>().prop_map(|amount| Target::BuildOutput { amount }),
 		1 => any::<bool>().prop_map(|delete_unconfirmed| Target::Scan { delete_unconfirmed }),
@@ -1044,6 +1047,25 @@ impl C15 {
 							Some(c[idx(*i, c.len())].key_id.clone())
 						}
 					}
+					CbName::NoRecord(i) => {
+						let parent = sim.w(w).active_parent();
+						let gone: Vec<Identifier> = st
+							.cands
+							.iter()
+							.filter(|c| c.w == w && !c.mined && c.key_id.parent_path() == parent)
+							.filter(|c| !v.outputs.iter().any(|o| o.key_id == c.key_id))
+							.map(|c| c.key_id.clone())
+							.collect();
+						if !gone.is_empty() && i % 2 == 0 {
+							Some(gone[idx(*i / 2, gone.len())].clone())
+						} else {
+							let top = v.outputs.iter().filter(|o| o.root_key_id == parent).map(|o| o.n_child).max().unwrap_or(0);
+							let mut path = parent.to_path();
+							path.depth = 3;
+							path.path[2] = grin_keychain::ChildNumber::from(top + 1 + (*i as u32 / 2) % 3);
+							Some(path.to_identifier())
+						}
+					}
 				};
 				p.pre_candidate = named.as_ref().map(|k| v.outputs.iter().any(|o| &o.key_id == k && o.mmr_index.is_none() && is_candidate(o)));
 				p.named = named.clone();
@@ -1056,6 +1078,7 @@ impl C15 {
 					CbName::Fresh => "coinbase-fresh",
 					CbName::Prev => "coinbase-named-candidate",
 					CbName::NonCandidate(_) => "coinbase-named-non-candidate",
+					CbName::NoRecord(_) => "coinbase-named-no-record",
 				};
 				if p.named.is_none() {
 					p.kind = "coinbase-fresh";
